@@ -2,6 +2,7 @@
 // descriptors, and the argument domain of every wrapper entry point (C07's quantifier).
 #include "core.h"
 #include "gen.h"
+#include <mutex>
 #include <set>
 
 // ------------------------------------------------------------------------------------------ lattice
@@ -127,7 +128,10 @@ bool entry_domain(const std::string & n, Domain & d)
 static const IntType * inttype_of(Kind k) { return (k >= K_I8 && k <= K_ULL) ? &INT_TYPES[k - K_I8] : nullptr; }
 const std::vector<int64_t> & boundary(Kind k)
   {
+  // called concurrently by the worker threads: the cache is guarded (map nodes are stable, the returned reference stays valid)
   static std::map<int, std::vector<int64_t>> cache;
+  static std::mutex cache_mutex;
+  std::lock_guard<std::mutex> guard(cache_mutex);
   auto it = cache.find(k); if(it != cache.end()) return it->second;
   std::vector<int64_t> v;
   switch(k)
